@@ -91,14 +91,12 @@ Blocks == {[id |-> i, f |-> p[1], l |-> p[2]] : i \in Ids, p \in NamePairs}
 Replies == UNION {[1..n -> Blocks] : n \in 1..MaxBlocks}
 AnyName == CHOOSE n \in Names : TRUE
 OtherName == CHOOSE n \in Names : n # AnyName
-DisplayKinds == IF Rich THEN (Names \cup {""}) \X BOOLEAN
-                ELSE {<<AnyName, FALSE>>, <<"", FALSE>>, <<OtherName, TRUE>>}
-AgentPairs == IF Rich THEN NamePairs ELSE {<<OtherName, AnyName>>}
+DisplayKinds == {<<AnyName, FALSE>>, <<"", FALSE>>, <<OtherName, TRUE>>} \cup (IF Rich THEN {<<OtherName, FALSE>>, <<"", TRUE>>} ELSE {})
+AgentPairs == {<<OtherName, AnyName>>}
 Agents == {[id |-> i, f |-> p[1], l |-> p[2], d |-> k[1], dflt |-> k[2]] : i \in Ids, p \in AgentPairs, k \in DisplayKinds}
 \* small alphabet: two agents are either about different ids or about id 1 in two different ways
 AgentLists == UNION {[1..n -> Agents] : n \in 0..(IF MaxBlocks < 1 THEN MaxBlocks ELSE 1)}
               \cup (IF MaxBlocks < 2 THEN {}
-                    ELSE IF Rich THEN [1..2 -> Agents]
                     ELSE {x \in [1..2 -> Agents] : x[1].id < x[2].id \/ (x[1].id = 1 /\ x[2].id = 1 /\ x[1] # x[2])})
 Responses == {[status |-> 200, agents |-> as, bad |-> {}] : as \in AgentLists}
              \cup {[status |-> 200, agents |-> as, bad |-> {i}] : as \in {x \in AgentLists : Len(x) <= 1}, i \in (IF Rich THEN Ids ELSE {NIds})}
@@ -106,7 +104,8 @@ Responses == {[status |-> 200, agents |-> as, bad |-> {}] : as \in AgentLists}
 Fn(S, T) == [S -> T]
 UpdVals ==
     IF Rich
-    THEN UNION {Fn(ks, Names \cup {"", NoVal}) : ks \in SUBSET {"FirstName", "LastName", "DisplayName", "Title"}}
+    THEN {v \in UNION {Fn(ks, Names \cup {"", NoVal}) : ks \in SUBSET {"FirstName", "LastName", "DisplayName", "Title"}} :
+             Has(v, "Title") => v["Title"] = AnyName}
     ELSE {[FirstName |-> AnyName, LastName |-> OtherName], [FirstName |-> OtherName], [LastName |-> AnyName],
           [DisplayName |-> AnyName], [DisplayName |-> OtherName], [DisplayName |-> ""], [DisplayName |-> NoVal], [Title |-> AnyName],
           [DisplayName |-> OtherName, FirstName |-> AnyName, LastName |-> AnyName, Title |-> AnyName]}
